@@ -550,6 +550,58 @@ def items(trees):
     add("row_after_kicks", "mej kicked", lambda: row_item("after_kicks"))
     add("row_over_budget", "mej", lambda: row_item("over"))
 
+    # --- shape of the schedule / extraction loop (C06, C07, C17): syntactic obligations, value 1 when the source has the expected shape
+    def sched_item(which, cls="EvolvedMF"):
+        init = find_def(ev, "EvolvedMF.__init__")
+        fn = find_def(ev, f"{cls}._evolve")
+        def src(n):
+            return ast.unparse(n)
+        if which == "grid":
+            want = "np.sort(np.r_[self.tms_u[self.tms_u < t_end], self.tout])"
+            got = src(value_of(find_assign(init, "self.t")))
+            if got != want or src(value_of(find_assign(init, "t_end"))) != "np.max(tout)":
+                raise Unsupported(f"integration grid is now `{got}`")
+            return "(1 : α)"
+        loops = [n for n in fn.body if isinstance(n, ast.For) and src(n.iter) == "self.t" and src(n.target) == "ti"]
+        if len(loops) != 1:
+            raise Unsupported(f"{cls}._evolve: `for ti in self.t` not found")
+        loop = loops[0]
+        if which == "integrate_first":
+            first = loop.body[0]
+            if not (isinstance(first, ast.Expr) and src(first.value) == "sol.integrate(ti)"):
+                raise Unsupported(f"{cls}._evolve: the loop no longer starts with sol.integrate(ti)")
+            return "(1 : α)"
+        inner = [n for n in loop.body if isinstance(n, ast.For)]
+        if len(inner) != 1 or src(inner[0].iter) != "np.flatnonzero(self.tout == ti)" or src(inner[0].target) != "iout":
+            raise Unsupported(f"{cls}._evolve: rows are no longer selected with np.flatnonzero(self.tout == ti)")
+        if which == "rows":
+            return "(1 : α)"
+        if which == "copy":
+            # every row works on its own copy of the solver state (ejection and kicks edit the arrays in place)
+            a = [n for n in inner[0].body if isinstance(n, ast.Assign) and "unpack_values" in src(n.value)]
+            if len(a) != 1 or src(a[0].value) != "self.massbins.unpack_values(sol.y.copy(), grouped_rem=True)":
+                raise Unsupported(f"{cls}._evolve: the row no longer unpacks its own copy of the solver state")
+            others = [n for n in ast.walk(loop) if isinstance(n, ast.Attribute) and src(n) == "sol.y"]
+            if len(others) != 1:
+                raise Unsupported(f"{cls}._evolve: the solver state is read {len(others)} times in the loop")
+            return "(1 : α)"
+        if which == "flag":
+            after = fn.body[fn.body.index(loop) + 1:]
+            a = [n for n in after if isinstance(n, ast.Assign) and src(n.targets[0]) == "self.converged"]
+            if len(a) != 1 or src(a[0].value) != "sol.successful()":
+                raise Unsupported(f"{cls}._evolve: the convergence flag is no longer read from sol.successful() after the loop")
+            w = [n for n in after if isinstance(n, ast.If) and src(n.test) == "not self.converged"]
+            if len(w) != 1 or "warnings.warn" not in src(w[0]):
+                raise Unsupported(f"{cls}._evolve: no warning on non-convergence")
+            return "(1 : α)"
+        raise Unsupported(which)
+    add("sched_grid_shape", "x", lambda: sched_item("grid"))
+    for cls, pre in (("EvolvedMF", "sched"), ("EvolvedMFWithBH", "schedbh")):
+        add(f"{pre}_integrate_first", "x", lambda cls=cls: sched_item("integrate_first", cls))
+        add(f"{pre}_rows_by_equality", "x", lambda cls=cls: sched_item("rows", cls))
+        add(f"{pre}_row_owns_copy", "x", lambda cls=cls: sched_item("copy", cls))
+        add(f"{pre}_flag_after_loop", "x", lambda cls=cls: sched_item("flag", cls))
+
     def kick_item(which):
         fn = find_def(kk, "_unbound_natal_kicks")
         env = {"Mr_BH[j]": "M", "Nr_BH[j]": "N", "retention": "ret", "natal_ejecta": "acc"}
